@@ -55,11 +55,11 @@ pub(crate) fn get_modifiers(modifier: u8) -> Modifiers {
 /// Read the entire contents of a file into a bytes vector.
 ///
 /// Optimized to allocate the required amount of capacity beforehand.
-pub(crate) fn read(file: &mut File) -> Vec<u8> {
-    let len = file.metadata().map(|m| m.len() + 1).unwrap();
+pub(crate) fn read(file: &mut File) -> std::io::Result<Vec<u8>> {
+    let len = file.metadata().map(|m| m.len() + 1)?;
     let mut buf = Vec::with_capacity(len as usize);
-    file.read_to_end(&mut buf).unwrap();
-    buf
+    file.read_to_end(&mut buf)?;
+    Ok(buf)
 }
 
 /// A meta characters splitted string.
